@@ -214,13 +214,14 @@ def run_property(prop, tier, seed, replay_path=None):
             elif r["mism"]:
                 mism_cases.append((c, r["mism"]))
 
+        # ---- 5b. black-box part (no model involved)
+        bb_fails, bb_cov = ([], {}) if replay_path else prop.extra_run(tier, seed, workdir)
+
+        witness_seen |= set(bb_cov.pop("_known_hits", []))
         for k in known:
             if k.get("status") == "known":
                 tag = "" if k["id"] in witness_seen else " (witness not reproduced on this tree)"
                 say("KNOWN-FINDING: property=%s %s: %s%s" % (pid, k["id"], k.get("what", ""), tag))
-
-        # ---- 5b. black-box part (no model involved)
-        bb_fails, bb_cov = ([], {}) if replay_path else prop.extra_run(tier, seed, workdir)
 
         # ---- 6. verdict
         def is_unknown(c, r, f):
